@@ -78,3 +78,10 @@ Definition ex_ohistory2 : list oevent :=
     OCmd 11%N (OInsert (Abs [Some 1%N; Some 10%N; Some 7%N], None) [(Some 99%N, 9%N)]);
     OCmd 11%N (OReorder [(Abs [None; None; None; None], None); (Rel [None; None], Some 77%N)]);
     OCmd 11%N (OBatch [OReorder [(Abs [Some 1%N; Some 10%N; Some 7%N; None], None)]; OX (XRemoveData false [(Abs [None; None; None], None)])]) ].
+
+(* 10 is subscribed to everything at depth 4; 11 then creates the node 7/8 by SETDATA with QUIET|ADDTOINDEX (PR_NAME_FLAGS = 12) *)
+Definition ex_ohistory3 : list oevent :=
+  [ OAttach 10%N 1%N 10%N 0%N; OAttach 11%N 1%N 11%N 0%N;
+    OCmd 10%N (OX (XBase (CSubscribe false [(Abs [None; None; None; None], None)])));
+    OCmd 11%N (OX (XSetData 0%N [((false, [7%N]), 5%N)]));
+    OCmd 11%N (OSetIdx 12%N [((false, [7%N; 8%N]), 1%N); ((false, [7%N]), 9%N)]) ].
